@@ -197,6 +197,11 @@ fn routes(tier: Tier, r: &mut Routes) {
     r.with(&[&[0, 0, 1]]).visit::<f64, DualVec<Dual64, f64, Const<2>>>(Dims::n(2));
     r.with(&[&[0, 0, 1, 0, 1]]).visit::<f64, Dual2Vec<Dual64, f64, Const<2>>>(Dims::n(2));
     r.with(&[&[0, 0, 1, 1, 0]]).visit::<f64, HyperDualVec<Dual64, f64, Const<2>, Const<2>>>(Dims::mn(2, 2));
+    // fourth order through three different nestings (the inner parts of the outer level's
+    // derivative coefficients are only exercised by nested types)
+    r.with(&[&[0, 0, 0, 0]]).visit::<f64, Dual2<Dual2_64, f64>>(Dims::NONE);
+    r.with(&[&[0, 0, 0, 0], &[1, 0, 0, 0]]).visit::<f64, Dual3<Dual64, f64>>(Dims::NONE);
+    r.with(&[&[0, 0, 0, 0], &[0, 0, 0, 1]]).visit::<f64, Dual<Dual3_64, f64>>(Dims::NONE);
     if tier == Tier::Thorough {
         r.with(&[&[0]]).visit::<f64, DualVec<f64, f64, Const<1>>>(Dims::n(1));
         r.with(&[&[0, 1, 0]]).visit::<f64, DualVec<f64, f64, Const<3>>>(Dims::n(3));
@@ -222,9 +227,6 @@ fn routes(tier: Tier, r: &mut Routes) {
         r.with(&[&[0, 0, 1]]).visit::<f32, HyperHyperDual32>(Dims::NONE);
         r.with(&[&[0, 1, 0]]).visit::<f64, Dual<DualSVec64<2>, f64>>(Dims::n(2));
         r.with(&[&[0, 0, 1, 1]]).visit::<f64, HyperDual<HyperDual64, f64>>(Dims::NONE);
-        r.with(&[&[0, 0, 0, 0]]).visit::<f64, Dual2<Dual2_64, f64>>(Dims::NONE);
-        r.with(&[&[0, 0, 0, 0]]).visit::<f64, Dual3<Dual64, f64>>(Dims::NONE);
-        r.with(&[&[0, 0, 0, 0]]).visit::<f64, Dual<Dual3_64, f64>>(Dims::NONE);
         r.with(&[&[0, 0, 0, 0]]).visit::<f64, HyperHyperDual<Dual64, f64>>(Dims::NONE);
     }
 }
